@@ -133,8 +133,9 @@ package webserver
 //@ func isAdminOrExplicitPassword
 //@   safe
 //@   props C17 C12
-//@   requires token-store-free: !held(token.tokens.mu)
-//@   modifies held(token.tokens.mu), token.tokens.modTime, token.tokens.fileSize, token.tokens.tokens
+//@   requires token-store-free: !held(token.tokens.mu) && !held(group.groups.mu)
+//@   modifies held(token.tokens.mu), token.tokens.modTime, token.tokens.fileSize, token.tokens.tokens, held(group.groups.mu), held(group.lookup(groupname).mu)
+//@   ensures groups-free: !held(group.groups.mu)
 //@   ensures token-store-free: !held(token.tokens.mu)
 //@   -- C17: the credentials presented are the ones examined, for the group addressed
 //@   assert at call globalAdminMatch presented: arg_username == *creds.Username && arg_password == creds.Password
@@ -160,8 +161,9 @@ package webserver
 //@   safe
 //@   props C17 C12
 //@   requires nonnil: w != nil && r != nil
-//@   requires token-store-free: !held(token.tokens.mu)
-//@   modifies ghostint("status", w), icall("http.ResponseWriter.Header", w)[*], held(token.tokens.mu), token.tokens.modTime, token.tokens.fileSize, token.tokens.tokens
+//@   requires token-store-free: !held(token.tokens.mu) && !held(group.groups.mu)
+//@   modifies ghostint("status", w), icall("http.ResponseWriter.Header", w)[*], held(token.tokens.mu), token.tokens.modTime, token.tokens.fileSize, token.tokens.tokens, held(group.groups.mu), held(group.lookup(groupname).mu)
+//@   ensures groups-free: !held(group.groups.mu)
 //@   ensures token-store-free: !held(token.tokens.mu)
 //@   -- C17: the decision is isAdminOrExplicitPassword's, for this group, with NO user named (so no explicit-password exception),
 //@   -- on the credentials of this request; a refusal has answered 401
@@ -176,8 +178,9 @@ package webserver
 //@   safe
 //@   props C17 C12
 //@   requires nonnil: w != nil && r != nil
-//@   requires token-store-free: !held(token.tokens.mu)
-//@   modifies ghostint("status", w), icall("http.ResponseWriter.Header", w)[*], held(token.tokens.mu), token.tokens.modTime, token.tokens.fileSize, token.tokens.tokens
+//@   requires token-store-free: !held(token.tokens.mu) && !held(group.groups.mu)
+//@   modifies ghostint("status", w), icall("http.ResponseWriter.Header", w)[*], held(token.tokens.mu), token.tokens.modTime, token.tokens.fileSize, token.tokens.tokens, held(group.groups.mu), held(group.lookup(groupname).mu)
+//@   ensures groups-free: !held(group.groups.mu)
 //@   ensures token-store-free: !held(token.tokens.mu)
 //@   assert at call isAdminOrExplicitPassword this-request: arg_groupname == groupname && arg_user == user
 //@        && arg_creds.Token == callresult("parseBearerToken", 1)
